@@ -531,7 +531,7 @@ func TestVerifC18_IndependentHandles(t *testing.T) {
 	// Readers: half of them on the same file, the others on different files.
 	const nReaders = 8
 	shared := files[len(files)-1]
-	reps := 1 + iters/5
+	reps := 1 + iters/7
 	assignment := make([]string, nReaders)
 	for i := range assignment {
 		if i%2 == 0 {
@@ -583,7 +583,7 @@ func TestVerifC18_IndependentHandles(t *testing.T) {
 		}
 		wantWritten[i] = d
 	}
-	wreps := 1 + iters/10
+	wreps := 1 + iters/20
 	msgs, finished = verifC18Parallel(nWriters, name+" writers", func(i int, beat func()) []string {
 		var out []string
 		for rep := 0; rep < wreps; rep++ {
